@@ -1,4 +1,4 @@
-//go:build verif
+//go:build verif && !verifpub
 
 package main
 
@@ -12,43 +12,6 @@ import (
 
 func init() {
 	register("field", "C01: every internal/field operation and raw fiat entry point", driveField)
-}
-
-func feFrom(v *big.Int) *field.Element {
-	fe, err := field.NewElementFromCanonicalBytes(be32(v))
-	if err != nil {
-		panic("feFrom: " + err.Error())
-	}
-	return fe
-}
-
-// feHex is the canonical encoding of fe; like scHex it watches the internal (Montgomery) representation.
-func feHex(fe *field.Element) string {
-	b := fe.Bytes()
-	if canonSink != nil {
-		canonSeen++
-		fresh, err := field.NewElementFromCanonicalBytes((*[32]byte)(b))
-		odd := err != nil || fresh.VerifMont() != fe.VerifMont() || fresh.Equal(fe) != 1 || (fe.IsZero() == 1) != (new(big.Int).SetBytes(b).Sign() == 0)
-		if odd || canonSeen%97 == 0 {
-			eq := -1
-			if err == nil {
-				eq = int(fresh.Equal(fe))
-			}
-			canonSink.E("fe.Canon", "v", hx(b), "mont", h32(limbsToBig(fe.VerifMont())), "iszero", int(fe.IsZero()), "eq_fresh", eq)
-		}
-	}
-	return hx(b)
-}
-
-// catch runs f and reports whether it panicked.
-func catch(f func()) (panicked bool) {
-	defer func() {
-		if r := recover(); r != nil {
-			panicked = true
-		}
-	}()
-	f()
-	return false
 }
 
 func driveField(c *ctx) {
@@ -415,17 +378,5 @@ func driveField(c *ctx) {
 		}
 		c.E("fe.SetShort", "in", hx(b), "len", l, "panic", pn, "out", o)
 	}
-}
-
-func b2i(b bool) int {
-	if b {
-		return 1
-	}
-	return 0
-}
-
-// feJunk returns a receiver pre-filled with a seeded non-zero value (so that "receiver unchanged"
-// and "receiver fully overwritten" are observable and runs are reproducible).
-func feJunk(r *rand.Rand) *field.Element {
-	return feFrom(add(randBig(r, add(bigP, -1)), 1))
+	fieldLife(c, r, vals)
 }
